@@ -14,7 +14,7 @@ KEEP0 = ['_buffer', 'g_dispatched', 'IDLE', 'CONNECTING', 'CONNECTED', 'protocol
         'state', 'connReq', 'keepalive', 'timer', 'pdu', 'lc_running', 'lc_interval', 'lc_fn', 'lc_owner',
         'tr_aborts', 'tr_closes', 'cleanStart', 'version', 'session', 'resultCode', 'granted']
 KEEP = KEEP0 + ['g_firing', 'id']
-KEEP_API = KEEP0 + ['g_firing', 't_status', 't_fn', 't_arg', 't_owner', 't_delay']        # API calls may draw a packet identifier
+KEEP_API = KEEP0 + ['g_firing', 't_status', 't_fn', 't_arg', 't_owner', 't_delay', 'd_fired', 'd_ok', 'd_val', 'd_owner']        # API calls may draw a packet identifier
 
 
 # what releasing held-back publishes never touches in addition: Deferred outcomes, existing timers, request fields
@@ -35,13 +35,14 @@ def live(self: Ref['mqtt.client.pubsubs.MQTTProtocol']) -> bool:
 @contract('mqtt.client.pubsubs.MQTTProtocol.handleSUBACK', props=['C07', 'C16', 'C13'])
 def _(self: Ref['mqtt.client.pubsubs.MQTTProtocol'], response: Ref['mqtt.pdu.SUBACK']):
     requires(is_obj(self.addr))
-    requires(live(self))
+    requires(live(self) and ping_ok(self))
     requires(is_int(response.msgId) and is_list_ib(response.granted))
     id = as_int(response.msgId)
     hit = contains(S(self), id)
     req = S(self)[id]
     modifies(all_but(KEEP))
     ensures(live(self))
+    ensures(ping_untouched_by_handler(self))
     ensures(implies(hit, not contains(S(self), id) and req.deferred.d_fired and req.deferred.d_ok
                     and req.deferred.d_val == response.granted and is_int(req.alarm.t_status) and req.alarm.t_status == 1))
     ensures(forall(lambda k: implies(k != id, contains(S(self), k) == old(contains(S(self), k)) and S(self)[k] == old(S(self)[k]))))
@@ -52,7 +53,7 @@ def _(self: Ref['mqtt.client.pubsubs.MQTTProtocol'], response: Ref['mqtt.pdu.SUB
 def _(self: Ref['mqtt.client.pubsubs.MQTTProtocol'], response: Ref['mqtt.pdu.SUBACK']):
     """an acknowledgement bearing an identifier nobody is waiting for changes nothing at all"""
     requires(is_obj(self.addr))
-    requires(live(self))
+    requires(live(self) and ping_ok(self))
     requires(is_int(response.msgId) and is_list_ib(response.granted))
     requires(not contains(S(self), response.msgId))
     modifies()
@@ -64,13 +65,14 @@ def _(self: Ref['mqtt.client.pubsubs.MQTTProtocol'], response: Ref['mqtt.pdu.SUB
 @contract('mqtt.client.pubsubs.MQTTProtocol.handleUNSUBACK', props=['C07', 'C16', 'C13'])
 def _(self: Ref['mqtt.client.pubsubs.MQTTProtocol'], response: Ref['mqtt.pdu.UNSUBACK']):
     requires(is_obj(self.addr))
-    requires(live(self))
+    requires(live(self) and ping_ok(self))
     requires(is_int(response.msgId))
     id = as_int(response.msgId)
     hit = contains(U(self), id)
     req = U(self)[id]
     modifies(all_but(KEEP))
     ensures(live(self))
+    ensures(ping_untouched_by_handler(self))
     ensures(implies(hit, not contains(U(self), id) and req.deferred.d_fired and req.deferred.d_ok
                     and req.deferred.d_val == id and is_int(req.alarm.t_status) and req.alarm.t_status == 1))
     ensures(forall(lambda k: implies(k != id, contains(U(self), k) == old(contains(U(self), k)) and U(self)[k] == old(U(self)[k]))))
@@ -80,7 +82,7 @@ def _(self: Ref['mqtt.client.pubsubs.MQTTProtocol'], response: Ref['mqtt.pdu.UNS
 @contract('mqtt.client.pubsubs.MQTTProtocol.handleUNSUBACK', name='foreign-id', callsite=False, props=['C07', 'C16'])
 def _(self: Ref['mqtt.client.pubsubs.MQTTProtocol'], response: Ref['mqtt.pdu.UNSUBACK']):
     requires(is_obj(self.addr))
-    requires(live(self))
+    requires(live(self) and ping_ok(self))
     requires(is_int(response.msgId))
     requires(not contains(U(self), response.msgId))
     modifies()
